@@ -1,17 +1,24 @@
 //! C19: chaos layer.
-//! script = [inj_kind (0 NoErrorInjection, 1 CustomErrorFn); error_rate f64 bits; latency_rate f64 bits;
-//!           min_latency us; max_latency us; seed; tail_ms; n; (gap_ms, inner_kind 0 ok/1 err, inner_val)*n]
+//! script = [flags; error_rate f64 bits; latency_rate f64 bits; min_latency; max_latency; seed; tail_ms; n;
+//!           (gap_ms, ik, inner_val)*n]
 //!          (anything after the 3n request fields is the model's oracle and is ignored here)
-//! Two equally seeded instances A and B of the REAL layer are driven in lock-step: request i is issued
-//! (call + first poll) to A, then to B, `gap_i` virtual ms after request i-1; nothing waits for a
+//!   flags  bit 0: 0 NoErrorInjection, 1 CustomErrorFn; bits 1-3: builder route (see `build`)
+//!   bounds v < 2^64: Duration::from_micros(v); v >= 2^64: v - 2^64 nanoseconds (Duration::new(secs, nanos))
+//!   ik     bit 0: inner outcome 0 Ok / 1 Err; bits 1-2: first poll of the future: 0 right after call(),
+//!          1 deferred (polled right after the next request that is polled at once, most recent deferred
+//!          first; whatever is still deferred after the last call() is polled then), 2/3 the future is
+//!          dropped without ever being polled; bits 3..: milliseconds the inner service sleeps before answering
+//! Two equally seeded instances A and B of the REAL layer are driven in lock-step: request i is created
+//! (poll_ready + call) on A, then on B, `gap_i` virtual ms after request i-1; nothing waits for a
 //! previous request, so requests overlap while an injected latency sleeps. The draw log of the
-//! verif hook is taken after every first poll.
-//! trace = [repro; per request 14 ints; n_draws; draw bits...]  (records and draws of instance A)
-//!   repro = 1 iff A and B produced identical records and identical draw logs
+//! verif hook is taken around every first poll.
+//! trace = [repro; per request 15 ints; n_draws; draw bits...]  (records and draws of instance A)
+//!   repro bit 0: A and B produced identical outcomes (record fields 4..15); bit 1: identical draw logs
 //!   (A uses one service handle for all requests, B a fresh clone of its handle per request)
 //!   request record = [n_log; k0; k1; k2 (logged kinds, -1 padding); listener events error, latency, pass
-//!                     (counts); reported delay ms (-1); inner_called; t_issue; t_inner (-1); res_kind
-//!                     (0 Ok, 1 Err, -1 pending at the end); res_val; t_done (-1)]
+//!                     (counts at the first poll); reported delay ms (-1); inner_called (count); t_call;
+//!                     t_poll (-1 never polled); t_inner (-1); res_kind (0 Ok, 1 Err, -1 pending at the end /
+//!                     never polled, -2 panicked); res_val; t_done (-1)]
 use std::sync::{Arc, Mutex};
 use std::time::Duration;
 use tower::{Layer, Service};
@@ -33,8 +40,12 @@ struct Logs {
 struct Inst {
     svc: Svc,
     logs: Arc<Logs>,
-    futs: Vec<Manual<Res>>,
-    recs: Vec<Vec<i128>>,
+    futs: Vec<Option<Manual<Res>>>,
+    recs: Vec<Vec<i128>>, // first 8 fields of the record
+    t_call: Vec<i128>,
+    t_poll: Vec<i128>,
+    done_at: Vec<i128>,
+    deferred: Vec<usize>,
     draws: Vec<u64>,
     via_clone: bool,
 }
@@ -43,50 +54,108 @@ fn now_ms(t0: tokio::time::Instant) -> i128 {
     (tokio::time::Instant::now() - t0).as_millis() as i128
 }
 
+fn dur(v: i128) -> Duration {
+    let two64: i128 = 1i128 << 64;
+    if v < two64 {
+        Duration::from_micros(v.max(0) as u64)
+    } else {
+        let ns = v - two64;
+        Duration::new((ns / 1_000_000_000) as u64, (ns % 1_000_000_000) as u32)
+    }
+}
+
 fn build(s: &[i128], t0: tokio::time::Instant) -> Inst {
-    let inj = zn(s, 0);
+    let inj = zn(s, 0) & 1;
+    let route = (zn(s, 0) >> 1) & 7;
     let er = f64::from_bits(zn(s, 1) as u64);
     let lr = f64::from_bits(zn(s, 2) as u64);
-    let (min_us, max_us, seed) = (zn(s, 3) as u64, zn(s, 4) as u64, zn(s, 5) as u64);
+    let (mn, mx, seed) = (dur(zn(s, 3)), dur(zn(s, 4)), zn(s, 5) as u64);
     let n = zn(s, 7) as usize;
-    let kinds: Vec<(i128, i128)> = (0..n).map(|i| (zn(s, 8 + 3 * i + 1), zn(s, 8 + 3 * i + 2))).collect();
+    let kinds: Vec<(i128, i128, u64)> = (0..n)
+        .map(|i| {
+            let ik = zn(s, 8 + 3 * i + 1);
+            (ik & 1, zn(s, 8 + 3 * i + 2), (ik >> 3).max(0) as u64)
+        })
+        .collect();
     let logs = Arc::new(Logs::default());
     let l = logs.clone();
     let inner = tower::service_fn(move |r: i128| {
         l.inner.lock().unwrap().push((r, now_ms(t0)));
-        let (ik, iv) = kinds.get(r as usize).copied().unwrap_or((0, 0));
-        async move { if ik == 0 { Ok::<i128, i128>(iv) } else { Err(iv) } }
+        let (ik, iv, ms) = kinds.get(r as usize).copied().unwrap_or((0, 0, 0));
+        async move {
+            if ms > 0 {
+                tokio::time::sleep(Duration::from_millis(ms)).await;
+            }
+            if ik == 0 { Ok::<i128, i128>(iv) } else { Err(iv) }
+        }
     });
-    let (l1, l2, l3) = (logs.clone(), logs.clone(), logs.clone());
-    let b = ChaosLayer::builder()
-        .name("verif")
-        .latency_rate(lr)
-        .min_latency(Duration::from_micros(min_us))
-        .max_latency(Duration::from_micros(max_us))
-        .seed(seed)
-        .on_error_injected(move || *l1.ev_err.lock().unwrap() += 1)
-        .on_latency_injected(move |d: Duration| l2.ev_lat.lock().unwrap().push(d.as_millis() as i128))
-        .on_passed_through(move || *l3.ev_pass.lock().unwrap() += 1);
+    // the setter groups, applicable to each of the three builder types
+    macro_rules! lat {
+        ($b:expr) => { $b.latency_rate(lr).min_latency(mn).max_latency(mx) };
+    }
+    macro_rules! lat_rev {
+        ($b:expr) => { $b.max_latency(mx).min_latency(mn).latency_rate(lr) };
+    }
+    macro_rules! obs {
+        ($b:expr) => {{
+            let (l1, l2, l3) = (logs.clone(), logs.clone(), logs.clone());
+            $b.name("verif")
+                .on_error_injected(move || *l1.ev_err.lock().unwrap() += 1)
+                .on_latency_injected(move |d: Duration| l2.ev_lat.lock().unwrap().push(d.as_millis() as i128))
+                .on_passed_through(move || *l3.ev_pass.lock().unwrap() += 1)
+        }};
+    }
+    let f = |r: &i128| *r + 7000;
+    let b0 = ChaosLayer::builder();
     let svc: Svc = if inj == 0 {
-        tower::util::BoxCloneService::new(b.build().layer(inner))
+        // NoErrorInjection: only the order of the setters can vary (error_rate() without error_fn()
+        // yields a builder that cannot be built)
+        let layer = match route {
+            0 | 2 | 4 | 6 => obs!(lat!(b0).seed(seed)).build(),
+            1 | 5 => lat_rev!(obs!(b0.seed(seed))).build(),
+            _ => obs!(lat!(b0.seed(seed ^ 1).latency_rate(0.5)).seed(seed)).build(), // overwritten values
+        };
+        tower::util::BoxCloneService::new(layer.layer(inner))
     } else {
-        tower::util::BoxCloneService::new(
-            b.error_fn(|r: &i128| *r + 7000).error_rate(er).build().layer(inner),
-        )
+        let layer = match route {
+            // error_fn(..).error_rate(..) on a fully configured builder (the only route driven before)
+            0 => obs!(lat!(b0).seed(seed)).error_fn(f).error_rate(er).build(),
+            // error_rate(..).error_fn(..): through ChaosConfigBuilderWithRate
+            1 => obs!(lat!(b0).seed(seed)).error_rate(er).error_fn(f).build(),
+            // everything configured on ChaosConfigBuilderWithRate
+            2 => obs!(lat!(b0.error_rate(er).seed(seed))).error_fn(f).build(),
+            // everything configured on ChaosConfigBuilder<CustomErrorFn>
+            3 => lat_rev!(obs!(b0.error_fn(f).error_rate(er))).seed(seed).build(),
+            // seed before the route switch, latency on the intermediate builder, listeners at the end
+            4 => obs!(lat!(b0.seed(seed).error_rate(er)).error_fn(f)).build(),
+            // rate given on both routes, the later one wins
+            5 => obs!(lat!(b0.error_rate(0.5).error_fn(f).error_rate(er)).seed(seed)).build(),
+            // values overwritten after the route switch
+            6 => obs!(lat!(b0.seed(seed ^ 1).latency_rate(0.5).error_fn(f).seed(seed)).error_rate(er)).build(),
+            _ => lat_rev!(obs!(b0.latency_rate(0.25).error_rate(er).seed(seed))).error_fn(f).build(),
+        };
+        tower::util::BoxCloneService::new(layer.layer(inner))
     };
-    Inst { svc, logs, futs: Vec::new(), recs: Vec::new(), draws: Vec::new(), via_clone: false }
+    Inst {
+        svc,
+        logs,
+        futs: Vec::new(),
+        recs: Vec::new(),
+        t_call: Vec::new(),
+        t_poll: Vec::new(),
+        done_at: Vec::new(),
+        deferred: Vec::new(),
+        draws: Vec::new(),
+        via_clone: false,
+    }
 }
 
 impl Inst {
-    /// call + first poll of request i
-    async fn issue(&mut self, i: usize, t0: tokio::time::Instant) {
-        let _ = take_draws();
-        let e0 = *self.logs.ev_err.lock().unwrap();
-        let l0 = self.logs.ev_lat.lock().unwrap().len();
-        let p0 = *self.logs.ev_pass.lock().unwrap();
+    /// poll_ready + call() of request i; the future is not polled
+    async fn create(&mut self, i: usize, t0: tokio::time::Instant) {
         // instance B sends every request through a fresh clone of its handle: the decisions must be a
         // function of the seed and the order of requests only, not of which clone carries a request
-        let mut m = if self.via_clone {
+        let m = if self.via_clone {
             let mut c = self.svc.clone();
             futures::future::poll_fn(|cx| c.poll_ready(cx)).await.ok();
             Manual::new(c.call(i as i128))
@@ -94,8 +163,23 @@ impl Inst {
             futures::future::poll_fn(|cx| self.svc.poll_ready(cx)).await.ok();
             Manual::new(self.svc.call(i as i128))
         };
-        let t_issue = now_ms(t0);
-        m.poll();
+        self.futs.push(Some(m));
+        self.recs.push(vec![0, -1, -1, -1, 0, 0, 0, -1]);
+        self.t_call.push(now_ms(t0));
+        self.t_poll.push(-1);
+        self.done_at.push(-1);
+    }
+    /// first poll of request i
+    fn first_poll(&mut self, i: usize, t0: tokio::time::Instant) {
+        let _ = take_draws();
+        let e0 = *self.logs.ev_err.lock().unwrap();
+        let l0 = self.logs.ev_lat.lock().unwrap().len();
+        let p0 = *self.logs.ev_pass.lock().unwrap();
+        self.t_poll[i] = now_ms(t0);
+        let m = self.futs[i].as_mut().unwrap();
+        if m.poll() {
+            self.done_at[i] = now_ms(t0);
+        }
         let d = take_draws();
         let mut rec = vec![d.len() as i128];
         for j in 0..3 {
@@ -107,20 +191,37 @@ impl Inst {
         rec.push((lat.len() - l0) as i128);
         rec.push(*self.logs.ev_pass.lock().unwrap() - p0);
         rec.push(if lat.len() > l0 { lat[l0] } else { -1 });
-        rec.push(t_issue); // placeholder layout: filled in by finish()
         drop(lat);
-        self.futs.push(m);
-        self.recs.push(rec);
+        self.recs[i] = rec;
+    }
+    /// request i has been created: apply its polling mode
+    fn after_create(&mut self, i: usize, mode: i128, t0: tokio::time::Instant) {
+        match mode {
+            0 => {
+                self.first_poll(i, t0);
+                while let Some(d) = self.deferred.pop() {
+                    self.first_poll(d, t0);
+                }
+            }
+            1 => self.deferred.push(i),
+            _ => self.futs[i] = None, // dropped without a poll
+        }
+    }
+    fn flush_deferred(&mut self, t0: tokio::time::Instant) {
+        while let Some(d) = self.deferred.pop() {
+            self.first_poll(d, t0);
+        }
     }
     /// poll every woken future until nothing is woken
-    fn pump(&mut self, t0: tokio::time::Instant, done_at: &mut Vec<i128>) {
+    fn pump(&mut self, t0: tokio::time::Instant) {
         loop {
             let mut any = false;
             for (i, m) in self.futs.iter_mut().enumerate() {
-                if m.alive() && m.woken() {
+                let Some(m) = m.as_mut() else { continue };
+                if self.t_poll[i] >= 0 && m.alive() && m.woken() {
                     any = true;
                     if m.poll() {
-                        done_at[i] = now_ms(t0);
+                        self.done_at[i] = now_ms(t0);
                     }
                 }
             }
@@ -128,6 +229,29 @@ impl Inst {
                 break;
             }
         }
+    }
+    fn finish(&self, n: usize) -> Vec<Vec<i128>> {
+        let inner = self.logs.inner.lock().unwrap();
+        let mut out = Vec::new();
+        for i in 0..n {
+            let mut rec = self.recs[i].clone();
+            let calls: Vec<i128> = inner.iter().filter(|c| c.0 == i as i128).map(|c| c.1).collect();
+            rec.push(calls.len() as i128);
+            rec.push(self.t_call[i]);
+            rec.push(self.t_poll[i]);
+            rec.push(calls.first().copied().unwrap_or(-1));
+            match self.futs[i].as_ref() {
+                Some(m) => match m.done {
+                    Some(Ok(v)) => rec.extend([0, v]),
+                    Some(Err(e)) => rec.extend([1, e]),
+                    None => rec.extend([if m.panicked { -2 } else { -1 }, 0]),
+                },
+                None => rec.extend([-1, 0]),
+            }
+            rec.push(self.done_at[i]);
+            out.push(rec);
+        }
+        out
     }
 }
 
@@ -141,53 +265,40 @@ fn run(s: &[i128]) -> Vec<i128> {
         let mut a = build(s, t0);
         let mut b = build(s, t0);
         b.via_clone = true;
-        let mut da = vec![-1i128; n];
-        let mut db = vec![-1i128; n];
         for i in 0..n {
             let gap = zn(s, 8 + 3 * i).max(0) as u64;
+            let mode = (zn(s, 8 + 3 * i + 1) >> 1) & 3;
             for _ in 0..gap {
                 advance_ms(1).await;
-                a.pump(t0, &mut da);
-                b.pump(t0, &mut db);
+                a.pump(t0);
+                b.pump(t0);
             }
-            a.issue(i, t0).await;
-            if a.futs[i].done.is_some() { da[i] = now_ms(t0); }
-            b.issue(i, t0).await;
-            if b.futs[i].done.is_some() { db[i] = now_ms(t0); }
+            a.create(i, t0).await;
+            a.after_create(i, mode, t0);
+            b.create(i, t0).await;
+            b.after_create(i, mode, t0);
             settle().await;
-            a.pump(t0, &mut da);
-            b.pump(t0, &mut db);
+            a.pump(t0);
+            b.pump(t0);
         }
+        a.flush_deferred(t0);
+        b.flush_deferred(t0);
+        settle().await;
+        a.pump(t0);
+        b.pump(t0);
         for _ in 0..tail {
             advance_ms(1).await;
-            a.pump(t0, &mut da);
-            b.pump(t0, &mut db);
+            a.pump(t0);
+            b.pump(t0);
         }
-        let finish = |x: &mut Inst, d: &Vec<i128>| -> Vec<i128> {
-            let inner = x.logs.inner.lock().unwrap();
-            let mut out = Vec::new();
-            for i in 0..n {
-                let mut rec = x.recs[i].clone();
-                let t_issue = rec.pop().unwrap();
-                let calls: Vec<i128> = inner.iter().filter(|c| c.0 == i as i128).map(|c| c.1).collect();
-                rec.push(calls.len() as i128);
-                rec.push(t_issue);
-                rec.push(calls.first().copied().unwrap_or(-1));
-                match x.futs[i].done {
-                    Some(Ok(v)) => rec.extend([0, v]),
-                    Some(Err(e)) => rec.extend([1, e]),
-                    None => rec.extend([if x.futs[i].panicked { -2 } else { -1 }, 0]),
-                }
-                rec.push(d[i]);
-                out.extend(rec);
-            }
-            out
-        };
-        let ra = finish(&mut a, &da);
-        let rb = finish(&mut b, &db);
-        let repro = (ra == rb && a.draws == b.draws) as i128;
-        let mut tr = vec![repro];
-        tr.extend(ra);
+        let ra = a.finish(n);
+        let rb = b.finish(n);
+        let same_outcomes = ra.iter().zip(rb.iter()).all(|(x, y)| x[4..] == y[4..]);
+        let same_draws = a.draws == b.draws && ra.iter().zip(rb.iter()).all(|(x, y)| x[..4] == y[..4]);
+        let mut tr = vec![(same_outcomes as i128) + 2 * (same_draws as i128)];
+        for r in ra {
+            tr.extend(r);
+        }
         tr.push(a.draws.len() as i128);
         tr.extend(a.draws.iter().map(|x| *x as i128));
         tr
